@@ -68,10 +68,11 @@ def make_branch(kind, cin, cout, i):
 class S(nn.Module):
     """stem conv -> 1..3 choice blocks (each with n branches) -> flatten -> linear.  `twice`: the first block is invoked twice."""
 
-    def __init__(self, n=2, kind='conv', blocks=1, twice=False, C=2, HW=2, gumbel=False, hard=False, stem2=False, collide=False):
+    def __init__(self, n=2, kind='conv', blocks=1, twice=False, C=2, HW=2, gumbel=False, hard=False, stem2=False, collide=False, bn=False):
         super().__init__()
         from plinio.methods.supernet import SuperNetModule
-        self.stem = nn.Conv2d(1, C, 1)
+        # bn: the fixed stem is a conv + BatchNorm pair (a module whose behaviour depends on its training flag)
+        self.stem = nn.Sequential(nn.Conv2d(1, C, 1), nn.BatchNorm2d(C)) if bn else nn.Conv2d(1, C, 1)
         self.blocks = nn.ModuleList()
         for b in range(blocks):
             self.blocks.append(SuperNetModule([make_branch(kind, C, C, i + b) for i in range(n)], gumbel_softmax=gumbel, hard_softmax=hard))
@@ -107,7 +108,7 @@ def prog_id(spec):
 
 def build(spec, seed=0):
     torch.manual_seed(seed)
-    kw = {k: v for k, v in spec.items() if k in ('n', 'kind', 'blocks', 'twice', 'C', 'HW', 'gumbel', 'hard', 'stem2', 'collide')}
+    kw = {k: v for k, v in spec.items() if k in ('n', 'kind', 'blocks', 'twice', 'C', 'HW', 'gumbel', 'hard', 'stem2', 'collide', 'bn')}
     m = S(**kw)
     dyadic_init(m, seed)
     # the combiners' alpha are parameters too: restore the uniform initialisation
